@@ -4,6 +4,7 @@ import (
 	"bytes"
 	"errors"
 	"fmt"
+	"time"
 
 	"github.com/KevoDB/kevo/pkg/common/log"
 	"github.com/KevoDB/kevo/pkg/config"
@@ -28,6 +29,10 @@ type Knobs struct {
 	ReadOnlyTxTTL          int64 `json:"ro_tx_ttl,omitempty"`
 	ReadWriteTxTTL         int64 `json:"rw_tx_ttl,omitempty"`
 	CompactionLevels       int   `json:"compaction_levels,omitempty"`
+	// not a kevo setting: the node's disk takes up to DiskUs microseconds of
+	// virtual time per state-changing operation (0: none), so that calls have a
+	// duration and overlap with timers and with each other
+	DiskUs int `json:"disk_us,omitempty"`
 }
 
 func GenKnobs(r *Rand) Knobs {
@@ -94,6 +99,9 @@ func DBDir(node string) string { return "/" + node + "/db" }
 // node's database. Must run in a task tagged with the node.
 func OpenEngine(node string, k Knobs) (*engine.EngineFacade, error) {
 	dir := DBDir(node)
+	if k.DiskUs > 0 && simos.Current() != nil {
+		simos.Current().Node(node).Latency = time.Duration(k.DiskUs) * time.Microsecond
+	}
 	if _, err := simos.Stat(dir + "/" + config.DefaultManifestFileName); err != nil {
 		if !simos.IsNotExist(err) {
 			return nil, err
